@@ -484,10 +484,14 @@ def _c04_worker(args):
                 # the ssh client of one planned file's transfer dies: unlike a fault inside copia this is the
                 # ordinary way a transfer fails, and exit status 0 still has to mean "everything delivered"
                 victim = rng.pick(plain)
+                # the needle names this one file's transfer command and nothing else (a bare "/name" would also
+                # match the listing and mkdir commands whenever the name is a prefix of a root or directory name:
+                # a failed LISTING is a different fault, after which the unchanged tree re-sends everything)
+                needle = ("/dst/" + victim + ".copia-tmp") if direction == "push" else ("/src/" + victim + "'")
                 if src0[victim]["size"] < 70000:
-                    sshfault = rng.pick(["kill-before", "exit-before", "run-then-kill", "run-then-exit", "partial-out-then-term"]) + ":/" + victim
+                    sshfault = rng.pick(["kill-before", "exit-before", "run-then-kill", "run-then-exit", "partial-out-then-term"]) + ":" + needle
                 else:
-                    sshfault = rng.pick(["kill-before", "run-then-kill", "partial-out-then-kill", "partial-in-then-kill", "partial-out-then-kill", "partial-in-then-kill"]) + ":/" + victim
+                    sshfault = rng.pick(["kill-before", "run-then-kill", "partial-out-then-kill", "partial-in-then-kill", "partial-out-then-kill", "partial-in-then-kill"]) + ":" + needle
                 label["ssh_client_fault"] = sshfault
                 cnt("runs_with_a_failing_ssh_client[%s]" % sshfault.split(":")[0])
             unreadable = None
